@@ -588,7 +588,7 @@ pub fn gen_fk_tables(rng: &mut Rng, sw: &Swarm) -> Vec<TableDef> {
     };
     let mut out = Vec::new();
     let mut t0 = mk("t0", 2);
-    if rng.chance(1, 4) {
+    if rng.chance(1, 3) {
         t0.fks.push(Fk { col: 1, parent: "t0".into(), parent_col: "c0".into(), on_delete: *rng.pick(&acts), on_update: *rng.pick(&acts) });
     }
     out.push(t0);
@@ -631,6 +631,11 @@ pub fn fk_adjust_insert(rng: &mut Rng, sut: &Sut, world: &World, def: &TableDef,
                 note = format!("fk-orphan@{}/{}", i + 1, n);
             } else if keys.is_empty() || rng.chance(1, 6) {
                 r[f.col] = Lit::Null;
+            } else if f.parent == def.name && rng.chance(1, 2) {
+                // self-reference: grow deep chains (parent = one of the most recently inserted keys),
+                // so that cascades have to recurse through several levels of the same table
+                let recent = &keys[keys.len().saturating_sub(3)..];
+                r[f.col] = rng.pick(recent).clone();
             } else {
                 r[f.col] = rng.pick(&keys).clone();
             }
